@@ -415,6 +415,7 @@ func init() {
 			c.SignIffApproved("C14", map[string]bool{"SignBeaconProposal": true, "SignBeaconAttestation": true, "SignBeaconAttestations": true})
 			c.SigningRootProvenance("C14")
 			c.StoreCommit("C03", s)
+			c.SameStore("C10")
 			c.BadgerBufferDiscipline("C11")
 			c.RulerKeyAgreement("C14")
 			c.ForkJoinRules("C03")
